@@ -165,6 +165,14 @@ CHECKS = {
         note="(b) and (c) run real thread / process pools: what is exhaustive is the configuration space and the release orders; the OS schedule is not controlled, but the counter cannot raise a false alarm and an over-sized pool is observed as soon as its extra worker picks a task. (a) rebinds names inside loky.backend.context / _parallel_backends.",
         design_ref="2/C15",
     ),
+    "C19": dict(
+        category="exploration",
+        engine="E4-enumerators under /verif/.venv (numpy from the offline wheelhouse)",
+        technique="bounded-exhaustive enumeration of dtype x shape x layout x subclass x nesting/alignment x compressor x mmap mode through the real dump/load, plus worker-side observations of automatically memmapped arguments",
+        text="Every existing combination of 19 dtypes (incl. structured aligned/packed/nested/big-endian, object, datetime, strings), 8 shapes (0-d, empty, n-d), 8 layouts (C, F, transposed, strided, negative stride, broadcast, memmap-backed, memmap slice at a non-zero offset) and ndarray / matrix / user subclass is dumped and loaded alone under every compressor and nested after 0..15 bytes so that every alignment padding occurs; loaded arrays must have the same dtype (up to the documented byte-order normalisation; identical with ensure_native_byte_order=False), shape, order and bytes. The uncompressed file is then loaded with every mmap_mode: np.memmap instances, equal contents, 16-byte aligned, offset inside the file, write-through for r+/w+ and not for c. Arrays passed to loky workers with max_nbytes around their size must present the same values and be memmapped exactly above the threshold.",
+        note="Runs under /verif/.venv (numpy 2.5.3) with joblib from /repo; the baseline environment has no numpy. Array sharing inside containers is not required (the property does not state it). numpy.matrix coming back as ndarray with numpy >= 2 is a known finding.",
+        design_ref="2/C19",
+    ),
 }
 
 NOT_BUILT_REASON = "check not built yet in this revision of /verif (planned in DESIGN.md section 2; model checking applies)"
